@@ -1,0 +1,96 @@
+//! Verification hooks.
+//!
+//! This module only exists when the crate is compiled with
+//! `RUSTFLAGS="--cfg decaf377_verif"`. It is never part of a normal build and
+//! changes nothing about the behaviour of the library unless a hook is
+//! installed by a test harness.
+//!
+//! The hooks expose the places where an R1CS gadget relies on a value that
+//! only the prover vouches for (a "hint"), so that a harness can play a
+//! malicious prover, and an unchecked constructor so that arbitrary
+//! coordinates can be offered when an element is witnessed.
+extern crate std;
+
+use std::boxed::Box;
+use std::cell::{Cell, RefCell};
+
+use crate::ark_curve::{edwards::EdwardsAffine, Element};
+use crate::Fq;
+
+/// Called at every `isqrt` hint site with `(site index, den, honest (flag, y))`;
+/// returns the `(flag, y)` that is witnessed instead.
+pub type IsqrtHook = Box<dyn FnMut(usize, &Fq, (bool, Fq)) -> (bool, Fq)>;
+/// Called when an element is witnessed with `(site index, honest encoding)`;
+/// returns the field element that is witnessed as its encoding instead.
+pub type EncodingHook = Box<dyn FnMut(usize, Fq) -> Fq>;
+
+std::thread_local! {
+    static ISQRT_HOOK: RefCell<Option<IsqrtHook>> = RefCell::new(None);
+    static ISQRT_SITES: Cell<usize> = Cell::new(0);
+    static ENCODING_HOOK: RefCell<Option<EncodingHook>> = RefCell::new(None);
+    static ENCODING_SITES: Cell<usize> = Cell::new(0);
+}
+
+/// Install (or remove) the hook for the inverse-square-root hint of this thread.
+pub fn set_isqrt_hook(hook: Option<IsqrtHook>) {
+    ISQRT_HOOK.with(|h| *h.borrow_mut() = hook);
+}
+
+/// Install (or remove) the hook for the witnessed encoding of this thread.
+pub fn set_encoding_hook(hook: Option<EncodingHook>) {
+    ENCODING_HOOK.with(|h| *h.borrow_mut() = hook);
+}
+
+/// Reset both site counters of this thread to zero.
+pub fn reset_sites() {
+    ISQRT_SITES.with(|c| c.set(0));
+    ENCODING_SITES.with(|c| c.set(0));
+}
+
+/// Number of `isqrt` hint sites passed on this thread since the last reset.
+pub fn isqrt_sites() -> usize {
+    ISQRT_SITES.with(|c| c.get())
+}
+
+/// Number of witnessed-encoding sites passed on this thread since the last reset.
+pub fn encoding_sites() -> usize {
+    ENCODING_SITES.with(|c| c.get())
+}
+
+#[allow(dead_code)]
+pub(crate) fn isqrt_hint(den: &Fq, was_square: bool, y: Fq) -> (bool, Fq) {
+    let site = ISQRT_SITES.with(|c| {
+        let n = c.get();
+        c.set(n + 1);
+        n
+    });
+    ISQRT_HOOK.with(|h| match h.borrow_mut().as_mut() {
+        Some(hook) => hook(site, den, (was_square, y)),
+        None => (was_square, y),
+    })
+}
+
+#[allow(dead_code)]
+pub(crate) fn witness_encoding_hint(encoding: Fq) -> Fq {
+    let site = ENCODING_SITES.with(|c| {
+        let n = c.get();
+        c.set(n + 1);
+        n
+    });
+    ENCODING_HOOK.with(|h| match h.borrow_mut().as_mut() {
+        Some(hook) => hook(site, encoding),
+        None => encoding,
+    })
+}
+
+impl Element {
+    /// Build an `Element` from arbitrary affine coordinates without any check.
+    ///
+    /// The result need not be on the curve, let alone a valid representative
+    /// of a group element. Only for offering adversarial witnesses to gadgets.
+    pub fn verif_from_affine_unchecked(x: Fq, y: Fq) -> Element {
+        Element {
+            inner: EdwardsAffine::new_unchecked(x, y).into(),
+        }
+    }
+}
